@@ -147,9 +147,9 @@ RunOutcome exec_C07(const Case &c) {
                                       ", expansions " + std::to_string(r.expansions) + ") differs from the reference in field " + d, "C07|bit-identity|" + mo.kind + "|" + (e.lwork > 0 ? "user" : "system")});
         }
         // expansions counter describes what happened: in SYSTEM mode without injected failures every growth = one request
-        if (e.lwork == 0 && e.faults.empty() && !ilu) {
-            bool grew = r.growth_reqs > 4;
-            if ((r.expansions > 0) != grew) out.violations.push_back({"expansions-count", "stat->expansions=" + std::to_string(r.expansions) + " but " + std::to_string(r.growth_reqs) + " growth requests were seen", "C07|expansions-count|" + mo.kind});
+        if (e.lwork == 0 && e.faults.empty()) {
+            // library allocation, no injected failure: every expansion is exactly one growth request after the four initial ones
+            if (r.expansions != r.growth_reqs - 4) out.violations.push_back({"expansions-count", "stat->expansions=" + std::to_string(r.expansions) + " but " + std::to_string(r.growth_reqs - 4) + " growth requests followed the initial four", "C07|expansions-count|" + mo.kind});
         }
         schedkey << (e.lwork > 0 ? "U" : "S") << e.fill << (e.align ? "a" : "") << (e.faults.empty() ? "" : "f") << r.expansions << ",";
     }
